@@ -619,6 +619,33 @@ def run_case(case, tape, ctx):
     stats['reset-runs'] = 1
     # 3. a routine's random stream depends only on its (inherited) seed
     fam = families(prog)
+    # (a routine made by one routine and played by another takes its maker's
+    # generator - if the maker really comes first: where the run played it
+    # before it was made, whose generator it has is not what the static
+    # reading above says - no verdict for it and for what it creates)
+    seen_spawn, late_made = set(), set()
+    for e in nrt['trace']:
+        if e['ev'] in ('spawn', 'spawnd') and 'child' in e:
+            seen_spawn.add(e['child'])
+        elif e['ev'] == 'make' and e['vals'][0] in seen_spawn:
+            late_made.add(e['vals'][0])
+    if late_made:
+        stats['made-after-played'] = 1
+        kids = {}
+        for i, r in enumerate(prog['routines']):
+            for st in r['body']:
+                if st[0] in ('spawn', 'spawnd', 'embed', 'spawna', 'make'):
+                    kids.setdefault(i, set()).add(st[1])
+        todo = list(late_made)
+        while todo:
+            c = todo.pop()
+            if fam.get(c) is not None or c in late_made:
+                fam[c] = None
+            for k in kids.get(c, ()):
+                if prog['routines'][k].get('seed') is None \
+                        and fam.get(k) is not None:
+                    fam[k] = None
+                    todo.append(k)
     seeded = all(fam.get(e['r']) is not None for e in nrt['trace']
                  if e['ev'] == 'draw')
     if any(e['ev'] == 'draw' for e in nrt['trace']):
